@@ -73,6 +73,15 @@ def scan_assumptions(text):
     return res
 
 
+def own_spans(dg):
+    """the spans that say WHERE a diagnostic was raised: the primary ones (all spans if none is marked primary).  For
+    `postcondition not satisfied` the primary span is the ensures clause and the secondary one the end of the body - both lie in
+    the same function; for `precondition not satisfied` the primary span is the call site."""
+    spans = dg.get('spans', [])
+    prim = [sp for sp in spans if sp.get('is_primary')]
+    return prim or spans
+
+
 def prelude_fn(ub, line):
     """the lemma / spec function of hand-written or generated specification text that encloses a generated line"""
     try:
@@ -190,7 +199,7 @@ def run_unit(modname, keep_dir=None, rlimit=None):
                 msg = dg.get('message', '')
                 if msg.startswith('aborting'):
                     continue
-                for sp in dg.get('spans', []):
+                for sp in own_spans(dg):
                     while sp.get('expansion') and sp['expansion'].get('span'):
                         sp = sp['expansion']['span']
                     f, _o = ub.locate(sp['line_start'])
@@ -215,8 +224,12 @@ def run_unit(modname, keep_dir=None, rlimit=None):
                 if cleared:
                     kept = []
                     for dg in r['diags']:
+                        # a diagnostic belongs to the function being verified when it was raised (its primary span: the
+                        # call site of a failed precondition, the end of the body for a failed postcondition); a secondary
+                        # span (the callee's `requires` clause, the `ensures` clause) may lie in ANOTHER function, and that
+                        # function verifying on its own says nothing about this failure
                         hit = False
-                        for sp in dg.get('spans', []):
+                        for sp in own_spans(dg):
                             while sp.get('expansion') and sp['expansion'].get('span'):
                                 sp = sp['expansion']['span']
                             f, _o = ub.locate(sp['line_start'])
@@ -321,8 +334,9 @@ def run_unit(modname, keep_dir=None, rlimit=None):
             if f is not None and f['mode'] in ('verify', 'canary'):
                 cands.append((ln, f, origin))
         if rec['kind'] == 'requires@call' and len(cands) > 1:
-            # pick the call site: the span that is not the primary line
-            c2 = [c for c in cands if c[0] != rec['line']]
+            # pick the call site: Verus marks it as the primary span (the secondary span is the callee's `requires` clause,
+            # which lies in another function of the unit when the callee is verified here too)
+            c2 = [c for c in cands if c[0] == rec['line']]
             cands = c2 or cands
         if cands:
             ln, fn, origin = cands[-1] if rec['kind'] == 'requires@call' else cands[0]
